@@ -6,4 +6,4 @@ Definition all_types : nat * N * Z := (0%nat, 0%N, 0%Z).
 Extraction "undo_model.ml" all_types lbuf_make lbuf_loaded lbuf_edit lbuf_undo lbuf_redo lbuf_modified
   lbuf_saved lbuf_unsaved modified_flag lines_of ln run_op spec_op ustack_init cur
   run_dop run_dops ebuf_open dirty_flag ec_quit guard_current disk lb
-  NSLOTS occupied full_table ec_quit_tab.
+  NSLOTS occupied full_table ec_quit_tab ebuf_new ec_edit_noarg ec_edit_own.
